@@ -56,7 +56,7 @@ class Out:
         self.states = 0      # extra states visited inside the case (coarse cases)
         self.evals = 0       # sub-cases evaluated inside a coarse case (0 -> the case counts as 1)
 
-    def viol(self, kind, msg, **sig):
+    def viol(self, kind, msg, /, **sig):
         self.v.append((kind, sig, str(msg)[:1500]))
 
     def call(self, n=1):
